@@ -88,6 +88,10 @@ pub fn canonical_programs() -> Vec<Vec<&'static str>> {
         vec!["ins x.a=1", "rotate x", "step WorkerMessage:Flush", "ins y.a=1", "rotate y", "step WorkerMessage:Flush"],
         // journal rotation with a lagging keyspace, then the lagging one is flushed (journal eviction)
         vec!["ins y.a=1", "ins x.a=1", "rotate x", "step+jrot WorkerMessage:Flush", "rotate y", "step WorkerMessage:Flush", "ins x.a=2"],
+        // a sealed journal (kept back by y) whose batches carry several items for the unflushed keyspace
+        vec!["batch [y.a=1 y.b=2 x.a=1]", "batch [y.ab=1 y.a=2]", "rotate x", "step+jrot WorkerMessage:Flush", "ins x.b=1"],
+        // a sealed journal in which x has a flushed record and a later unflushed one
+        vec!["ins x.b=1", "rotate x", "step WorkerMessage:Flush", "batch [x.a=1 x.ab=2 y.a=1]", "rotate y", "step+jrot WorkerMessage:Flush", "ins y.b=1"],
         // overwrite after flush, compaction, clear
         vec!["ins x.a=1", "rotate x", "step WorkerMessage:Flush", "ins x.a=2", "rotate x", "step WorkerMessage:Flush", "step WorkerMessage:Compact(\"x\")", "clear x", "ins x.b=1"],
     ]
@@ -105,6 +109,7 @@ fn plans(tier: &str) -> Vec<Plan> {
         Plan { fixed: Some(canonical_programs()), name: "canonical", cfg: d.clone(), prefix: "", alpha: Alpha::empty(), depth: 0 },
         Plan { fixed: None, name: "main", cfg: d.clone(), prefix: "", alpha: alpha(tier), depth: if q { 3 } else { 4 } },
         Plan { fixed: None, name: "two-sealed-journals", cfg: d.clone(), prefix: "two_sealed_journals", alpha: alpha(tier), depth: if q { 1 } else { 2 } },
+        Plan { fixed: None, name: "sealed-journal-all-record-kinds", cfg: d.clone(), prefix: "sealed_journal_all_kinds", alpha: alpha(tier), depth: if q { 1 } else { 2 } },
         Plan { fixed: None, name: "tx-single-writer", cfg: Cfg { kind: DbKind::SingleWriter, ..d.clone() }, prefix: "", alpha: tx_alpha.clone(), depth: if q { 2 } else { 3 } },
         Plan { fixed: None, name: "tx-optimistic", cfg: Cfg { kind: DbKind::Optimistic, ..d.clone() }, prefix: "", alpha: tx_alpha.clone(), depth: if q { 2 } else { 3 } },
     ];
